@@ -41,6 +41,7 @@ def cases(tier, seed):
     cs = [dict(c, seed=seed, idx=i, tier=tier) for i, c in enumerate(g)]
     cs += [{"kind": "random", "seed": seed, "idx": len(g) + i, "tier": tier} for i in range(N_RANDOM[tier])]
     # live systems after edit histories: conservation must hold on what the incremental machinery produced, too
+    cs += [{"kind": "builders", "seed": seed, "idx": len(cs) + i, "tier": tier} for i in range(12 if tier == "quick" else 150)]
     cs += [{"kind": "history", "seed": seed, "idx": len(cs) + i, "tier": tier, "n_edits": 5} for i in range(N_HIST[tier])]
     return cs
 
@@ -48,7 +49,7 @@ def cases(tier, seed):
 def requirements(tier):
     return {"min_counters": {"job_pattern_pairs": 600 if tier == "quick" else 8000, "series_compared": 3000, "parallel_compared": 200,
                              "server_need_compared": 200, "conservation_totals": 1500, "boundary_durations": 20, "live_checks_after_edit": 100},
-            "required_classes": ["job_repeated_in_step", "multi_timezone", "zero_duration_step", "job_shared_by_2_patterns", "grid", "history"]}
+            "required_classes": ["job_repeated_in_step", "multi_timezone", "zero_duration_step", "job_shared_by_2_patterns", "grid", "history", "service_jobs"]}
 
 
 def grid_spec(c, rnd):
@@ -101,9 +102,21 @@ def check(spec, objs):
             V.append({"kind": "UTC starts total != local starts total", "pattern": up, "utc": total(s), "local": sum(loc)})
         starts[up] = s
     across = {j: {"occ": {}, "avg": {}, "dt": {}, "ds": {}} for j in jobs}
+    derived = {}
     for j in jobs:
         P = O[j]["params"]
-        d = R.hours(P["request_duration"])
+        if "request_duration" not in P or "data_transferred" not in P:
+            # service jobs: duration and amounts are derived by the builder (C17 checks the derivation); the conservation laws
+            # are checked on the derived values as published
+            P = dict(P)
+            for a in ("request_duration", "data_transferred", "data_stored", "ram_needed", "compute_needed"):
+                v = getattr(objs[j], a)
+                P[a] = ["q", 0.0, "s"] if isinstance(v, E.EmptyExplainableObject) else ["q", float(v.value.magnitude), str(v.value.units)]
+            derived[j] = P
+            q_ = E.u.Quantity(P["request_duration"][1], P["request_duration"][2]).to("hour").magnitude
+            d = Fraction(float(q_)).limit_denominator(10**9)
+        else:
+            d = R.hours(P["request_duration"])
         if abs(d - round(d)) < Fraction(1, 10**9) and d > 0:
             C["boundary_durations"] += 1
         amounts = {"dt": base(P["data_transferred"]), "ds": base(P["data_stored"])}
@@ -186,8 +199,9 @@ def check(spec, objs):
         for res, attr in (("ram_needed", "hour_by_hour_ram_need"), ("compute_needed", "hour_by_hour_compute_need")):
             exp = {}
             for j in jobs:
-                if gen.server_of_job(spec, j) == s and res in O[j]["params"]:
-                    exp = add(exp, across[j]["avg"], base(O[j]["params"][res]))
+                PP = derived.get(j, O[j]["params"])
+                if gen.server_of_job(spec, j) == s and res in PP:
+                    exp = add(exp, across[j]["avg"], base(PP[res]))
             C["server_need_compared"] += 1
             mm = mismatch(S(getattr(objs[s], attr)), exp)
             if mm:
@@ -229,6 +243,9 @@ def run_case(case):
         return run_history(case, rnd)
     if case["kind"] == "grid":
         spec = grid_spec(case, rnd); classes.add("grid")
+    elif case["kind"] == "builders":
+        from .c17 import builder_spec
+        spec = builder_spec(rnd); classes.add("service_jobs")
     else:
         spec = gen.rand_spec(rnd, case["tier"])
     classes |= gen.topo_classes(spec)
